@@ -77,8 +77,47 @@ def gen(ctx):
     return hist
 
 
+PORT_FORMS = {
+    "list": lambda p: list(p), "tuple": lambda p: tuple(p), "range": lambda p: range(p[0], p[0] + len(p)) if p == list(range(p[0], p[0] + len(p))) else list(p),
+    "generator": lambda p: (x for x in p), "map": lambda p: map(int, [str(x) for x in p]), "iter": lambda p: iter(p), "dict-keys": lambda p: dict.fromkeys(p).keys(),
+    "reversed": lambda p: reversed(list(reversed(p))),
+}
+
+
+def _pool_of(form, ports):
+    import asyncio
+
+    import aioftp
+
+    async def go():
+        server = aioftp.Server(data_ports=PORT_FORMS[form](ports))
+        q = server.available_data_ports
+        return sorted(x[1] for x in list(q._queue)) if q is not None else None
+
+    return asyncio.run(go())
+
+
+def port_forms(ctx, res):
+    """`data_ports` is documented as an iterable of ports: whatever kind of iterable it is given as - a one-shot one
+    among them - the pool the server starts with holds every configured port once"""
+    for ports in ([5001], [5001, 5002, 5003], list(range(6000, 6010))):
+        for form in sorted(PORT_FORMS):
+            res.cases += 1
+            res.count("data_ports_given_as:" + form)
+            res.distinct.add(("port-form", form, len(ports)))
+            inp = {"kind": "data-ports-form", "form": form, "ports": ports}
+            try:
+                got = _pool_of(form, ports)
+            except Exception as e:  # noqa
+                res.oracle_failures.append({"input": inp, "what": "Server(data_ports=<%s of %r>) raised %s: %s" % (form, ports, type(e).__name__, str(e)[:100]), "signature": "C11:pool-not-the-configured-ports"})
+                continue
+            if got != sorted(ports):
+                res.oracle_failures.append({"input": inp, "what": "Server(data_ports=<%s of %r>) starts with the pool %r" % (form, ports, got), "signature": "C11:pool-not-the-configured-ports"})
+
+
 def run(ctx):
     res = Result()
+    port_forms(ctx, res)
     for ports, ops in gen(ctx):
         res.cases += 1
         res.count("ipv6_histories")
@@ -94,6 +133,10 @@ def run(ctx):
 
 
 def replay(inp):
+    if inp.get("kind") == "data-ports-form":
+        got = _pool_of(inp["form"], inp["ports"])
+        print("pool:", got)
+        return got != sorted(inp["ports"])
     fails = simnet.run(_history, inp["ports"], inp["ops"])
     print(fails)
     return bool(fails)
